@@ -84,6 +84,21 @@ func GenShapeNested(t *rapid.T, idx int) Shape {
 	g := &shapeGen{t: t, idx: idx, sh: &Shape{Root: fmt.Sprintf("S%d", idx)}, nestedBias: true}
 	depth := rapid.SampledFrom([]int{1, 2, 3, 3}).Draw(t, "depth")
 	g.genStruct(g.sh.Root, depth, 2)
+	// every conversion class (BiMapS/B/I/F) has a field to work on: add a root field of the classes that are missing
+	have := map[string]bool{}
+	used := map[string]bool{}
+	for _, f := range g.sh.Structs[0].Fields {
+		used[f.Name] = true
+		if f.Kind == "plain" {
+			have[classOf(f.Type)] = true
+		}
+	}
+	for _, cls := range []string{"string", "bytes", "int", "float"} {
+		if !have[cls] {
+			views := classTypes[cls]
+			g.sh.Structs[0].Fields = append(g.sh.Structs[0].Fields, Field{Name: g.fieldName(used), Kind: "plain", Type: views[rapid.IntRange(0, len(views)-1).Draw(t, "classField")]})
+		}
+	}
 	g.addTags()
 	return *g.sh
 }
@@ -155,6 +170,23 @@ func GenComposeRequests(t *rapid.T, sh *Shape, other *Shape) []Request {
 					Extra: map[string]any{"class": cls, "k": rapid.IntRange(1, 9).Draw(t, "k")}})
 			}
 		}
+	}
+	// one converting lens per class that has a field, whatever the draws above picked
+	for _, cls := range []string{"string", "bytes", "int", "float"} {
+		var cands []target
+		for _, x := range nameOK {
+			if classOf(x.typ) == cls {
+				cands = append(cands, x)
+			}
+		}
+		if len(cands) == 0 {
+			continue
+		}
+		x := cands[rapid.IntRange(0, len(cands)-1).Draw(t, "classVictim")]
+		views := classTypes[cls]
+		v := views[rapid.IntRange(0, len(views)-1).Draw(t, "view")]
+		reqs = append(reqs, Request{Prop: "C04", API: "bimapx", N: 1, ByName: rapid.Bool().Draw(t, "byName"), Names: []string{x.key}, Types: []string{x.typ, v}, Foci: []int{x.entry}, Expect: "focus", NT: v != x.typ,
+			Classes: []string{"bimapX-" + cls}, Extra: map[string]any{"class": cls}})
 	}
 	// product shapes: N distinct leaf fields of mixed types, by name
 	var leaves []target
@@ -497,7 +529,13 @@ func emitCompose(w func(string, ...any), sh *Shape, l []Entry, r Request) bool {
 		if r.Extra["single"] == true {
 			w("\t\toptcheck.Morph[%s, %s](h, \"Iso\", iso0, pairs)\n", S, T)
 		} else {
-			w("\t\toptcheck.Morph[%s, %s](h, \"Morphism(%s)\", optics.Morphism[%s, %s](%s), pairs)\n", S, T, strings.Join(entries, ", "), S, T, strings.Join(entries, ", "))
+			// the isos are passed as a slice the caller keeps: it must read the same afterwards, and a second morphism built
+			// from it must work like the first
+			w("\t\tlist := []optics.Isomorphism[%s, %s]{%s}\n\t\tkept := append([]optics.Isomorphism[%s, %s]{}, list...)\n", S, T, strings.Join(entries, ", "), S, T)
+			w("\t\tm1 := optics.Morphism[%s, %s](list...)\n", S, T)
+			w("\t\toptcheck.SameIsos[%s, %s](h, \"Morphism(list...)\", list, kept)\n", S, T)
+			w("\t\toptcheck.Morph[%s, %s](h, \"Morphism(%s)\", m1, pairs)\n", S, T, strings.Join(entries, ", "))
+			w("\t\toptcheck.Morph[%s, %s](h, \"a second Morphism built from the same slice (%s)\", optics.Morphism[%s, %s](list...), pairs)\n", S, T, strings.Join(entries, ", "), S, T)
 		}
 		return true
 	}
